@@ -174,7 +174,7 @@ func runC03(t *testing.T, rc RestartCase) (*h.Violation, h.Info) {
 var c03 = &h.Campaign[RestartCase]{
 	Prop: "C03", Sub: "restart",
 	Rule: "rapid: superuser histories as in C02 (1-25 calls), dummy or real AES-256-GCM KEK; after EVERY call: a second db.Open of the same path must leave file bytes/inode/size/mtime untouched and dump exactly the model state, an independent decoder of the documented schema-v1 layout must yield the model state including next-version counters, and on a copy a fresh put to each name must return model.latest+1; non-trivial = a reopen that follows a successful delete/delete-version, or a counter probe after the newest version was deleted; distinct by history",
-	Quick: 4000, Thorough: 150000,
+	Quick: 4000, Thorough: 400000,
 	Gen: func(rt *rapid.T) RestartCase {
 		return RestartCase{Ops: dbx.GenHistory(rt, 1, 25), RealKEK: rapid.IntRange(0, 3).Draw(rt, "realkek") == 0}
 	},
@@ -219,7 +219,7 @@ func runC03Encoded(t *testing.T, ec EncodedCase) (*h.Violation, h.Info) {
 var c03enc = &h.Campaign[EncodedCase]{
 	Prop: "C03", Sub: "encoded",
 	Rule: "rapid: model states reached by random histories are rendered to a schema-v1 file by the harness's own encoder (harness/model/dbfile.go, written from the documented layout) under a fresh AES-256-GCM KEK; db.Open must read exactly that state (dump, counters, file untouched); non-trivial = non-empty state; distinct by history",
-	Quick: 1500, Thorough: 60000,
+	Quick: 1500, Thorough: 150000,
 	Gen:   func(rt *rapid.T) EncodedCase { return EncodedCase{Ops: dbx.GenHistory(rt, 0, 25)} },
 	Run:   runC03Encoded,
 }
